@@ -110,78 +110,27 @@ Lemma ent_write_refused_iff w h ts now slot :
   snd (ent_write w h ts now slot) =
   if would_exceed (w_qos w) h (w_insts w) then E_OUT_OF_RESOURCES else 0.
 Proof.
-  unfold ent_write, would_exceed, inst_for_write.
-  destruct (has_inst h (w_insts w)) eqn:Eh; cbn [negb andb orb].
-  - assert (Hf : exists s, find_inst h (w_insts w) = Some s) by now apply has_inst_find.
-    destruct Hf as [s Hs].
-    assert (Hm : mspi_hit (w_qos w) h (w_insts w) =
-                 match q_mspi (w_qos w) with
-                 | Some m => match q_hist (w_qos w) with
-                             | KeepAll => usize_of_i32 m <=? zlen (samples_of h (w_insts w))
-                             | KeepLast d => if wrap_i32 d <=? m then false
-                                             else usize_of_i32 m <=? zlen (samples_of h (w_insts w))
-                             end
-                 | None => false end).
-    { unfold mspi_hit, inst_full, samples_of. rewrite Hs. reflexivity. }
-    rewrite <- Hm. destruct (mspi_hit (w_qos w) h (w_insts w)); cbn [orb snd]; [reflexivity|].
-    unfold ms_hit. destruct (q_max_samples (w_qos w)) as [ms|].
-    + destruct (usize_of_i32 ms <=? total_samples (w_insts w)); cbn [snd]; [reflexivity|].
-      destruct (expired _ _ _); reflexivity.
-    + destruct (expired _ _ _); reflexivity.
-  - destruct (len_lt (zlen (w_insts w)) (q_max_instances (w_qos w))); cbn [negb orb snd]; [|reflexivity].
-    set (new := mkInst h None []).
-    assert (Hs : find_inst h (w_insts w ++ [new]) = Some new) by now apply find_inst_app_new.
-    assert (H0 : samples_of h (w_insts w) = []).
-    { unfold samples_of. now rewrite (has_inst_false_find _ _ Eh). }
-    assert (Hm : mspi_hit (w_qos w) h (w_insts w ++ [new]) =
-                 match q_mspi (w_qos w) with
-                 | Some m => match q_hist (w_qos w) with
-                             | KeepAll => usize_of_i32 m <=? zlen (samples_of h (w_insts w))
-                             | KeepLast d => if wrap_i32 d <=? m then false
-                                             else usize_of_i32 m <=? zlen (samples_of h (w_insts w))
-                             end
-                 | None => false end).
-    { unfold mspi_hit, inst_full. rewrite Hs, H0. reflexivity. }
-    rewrite <- Hm. destruct (mspi_hit (w_qos w) h (w_insts w ++ [new])); cbn [orb snd]; [reflexivity|].
-    unfold ms_hit. rewrite total_app. replace (total_samples [new]) with 0 by reflexivity. rewrite Z.add_0_r.
-    destruct (q_max_samples (w_qos w)) as [ms|].
-    + destruct (usize_of_i32 ms <=? total_samples (w_insts w)); cbn [snd]; [reflexivity|].
-      destruct (expired _ _ _); reflexivity.
-    + destruct (expired _ _ _); reflexivity.
+  unfold ent_write, would_exceed.
+  destruct (inst_refused _ _ _); cbn [orb snd]; [reflexivity|].
+  destruct (mspi_hit _ _ _); cbn [orb snd]; [reflexivity|].
+  destruct (ms_hit _ _); cbn [orb snd]; [reflexivity|].
+  destruct (expired _ _ _); reflexivity.
 Qed.
 
-(* a refused write adds no sample: the RTPS history, the sequence counter and the samples
-   recorded for every instance are unchanged; if the instance was known, nothing changes at all *)
+(* a refused write stores nothing: no sample, no sequence number, no instance record *)
 Lemma set_insts_same w : set_insts w (w_insts w) = w.
 Proof. destruct w; reflexivity. Qed.
 
 Lemma ent_write_refused_stores_nothing w h ts now slot w' c :
-  ent_write w h ts now slot = (w', c) -> c <> 0 ->
-  w_changes w' = w_changes w /\ w_last_sn w' = w_last_sn w /\
-  (forall x, samples_of x (w_insts w') = samples_of x (w_insts w)) /\
-  total_samples (w_insts w') = total_samples (w_insts w) /\
-  w_proxies w' = w_proxies w /\ w_pending w' = w_pending w /\
-  (has_inst h (w_insts w) = true -> w' = w).
+  ent_write w h ts now slot = (w', c) -> c <> 0 -> w' = w.
+Proof. intros H Hc. now destruct (ent_write_refused _ _ _ _ _ _ _ H Hc). Qed.
+
+Lemma samples_of_for_write h x l : samples_of x (inst_for_write h l) = samples_of x l.
 Proof.
-  unfold ent_write, inst_for_write. intros H Hc.
-  destruct (has_inst h (w_insts w)) eqn:Eh.
-  - assert (R : w' = w).
-    { destruct (mspi_hit _ _ _); [injection H as <- <-; apply set_insts_same|].
-      destruct (ms_hit _ _); [injection H as <- <-; apply set_insts_same|].
-      destruct (expired _ _ _); injection H as <- <-; contradiction. }
-    subst w'. repeat split; auto.
-  - destruct (len_lt _ _).
-    + set (new := mkInst h None []) in *.
-      assert (A : forall x, samples_of x (w_insts w ++ [new]) = samples_of x (w_insts w)).
-      { intros x. unfold samples_of. destruct (Z.eq_dec x h) as [->|Hn].
-        - rewrite (find_inst_app_new h (w_insts w) new Eh eq_refl), (has_inst_false_find _ _ Eh). reflexivity.
-        - rewrite find_inst_app_other; [reflexivity|]. cbn [i_h new]. congruence. }
-      assert (B : total_samples (w_insts w ++ [new]) = total_samples (w_insts w)).
-      { rewrite total_app. replace (total_samples [new]) with 0 by reflexivity. lia. }
-      destruct (mspi_hit _ _ _); [injection H as <- <-; wsimpl; repeat split; auto; discriminate|].
-      destruct (ms_hit _ _); [injection H as <- <-; wsimpl; repeat split; auto; discriminate|].
-      destruct (expired _ _ _); injection H as <- <-; contradiction.
-    + injection H as <- <-. repeat split; auto.
+  unfold inst_for_write. destruct (has_inst h l) eqn:Eh; [reflexivity|].
+  unfold samples_of. destruct (Z.eq_dec x h) as [->|Hn].
+  - rewrite (find_inst_app_new h l (mkInst h None [] false) Eh eq_refl), (has_inst_false_find _ _ Eh). reflexivity.
+  - rewrite find_inst_app_other; [reflexivity|]. cbn [i_h]. congruence.
 Qed.
 
 (* a sample that is already expired when it is written is recorded in the instance (it counts
@@ -192,15 +141,13 @@ Lemma ent_write_expired_recorded_not_stored w h ts now slot w' :
   samples_of h (w_insts w') = samples_of h (w_insts w) ++ [w_last_sn w + 1].
 Proof.
   unfold ent_write. intros Hx H.
-  destruct (inst_for_write (w_qos w) h (w_insts w)) as [l1|] eqn:E1; [|discriminate].
+  destruct (inst_refused _ _ _); [discriminate|].
   destruct (mspi_hit _ _ _); [discriminate|]. destruct (ms_hit _ _); [discriminate|].
   rewrite Hx in H. injection H as <-. wsimpl. repeat split.
-  unfold samples_of. rewrite find_upd_same by reflexivity.
-  unfold inst_for_write in E1. destruct (has_inst h (w_insts w)) eqn:Eh.
-  - injection E1 as <-. destruct (proj1 (has_inst_find _ _) Eh) as [s Hs]. rewrite Hs. reflexivity.
-  - destruct (len_lt _ _); [|discriminate]. injection E1 as <-.
-    rewrite (find_inst_app_new h (w_insts w) (mkInst h None []) Eh eq_refl).
-    rewrite (has_inst_false_find _ _ Eh). reflexivity.
+  unfold samples_of at 1. rewrite find_upd_same by reflexivity.
+  destruct (inst_for_write_spec h (w_insts w)) as (Hh & _).
+  destruct (proj1 (has_inst_find _ _) Hh) as [s Hs]. rewrite Hs. cbn [option_map record_sample i_samples].
+  rewrite <- (samples_of_for_write h h (w_insts w)). unfold samples_of. now rewrite Hs.
 Qed.
 
 (* -------------------------------------------------- the limits invariant *)
@@ -254,34 +201,34 @@ Lemma ent_write_lim w h ts now slot w' c :
   Lim w -> room w h -> ent_write w h ts now slot = (w', c) -> Lim w'.
 Proof.
   intros [Li Lt Lc] R H. unfold ent_write in H.
-  destruct (inst_for_write (w_qos w) h (w_insts w)) as [l1|] eqn:E1.
-  2:{ injection H as <- <-. constructor; assumption. }
+  destruct (inst_refused (w_qos w) h (w_insts w)) eqn:Er; [injection H as <- <-; constructor; assumption|].
+  destruct (mspi_hit (w_qos w) h (w_insts w)) eqn:Em; [injection H as <- <-; constructor; assumption|].
+  destruct (ms_hit (w_qos w) (w_insts w)) eqn:Es; [injection H as <- <-; constructor; assumption|].
+  set (l1 := inst_for_write h (w_insts w)) in *.
   (* the records after the possible push *)
   assert (L1 : (forall i, In i l1 -> opt_le (zlen (i_samples i)) (inst_bound (w_qos w))) /\
                total_samples l1 = total_samples (w_insts w) /\
                opt_le (zlen l1) (nonneg_lim (q_max_instances (w_qos w))) /\
                exists i0, find_inst h l1 = Some i0 /\
                  (find_inst h (w_insts w) = Some i0 \/ i_samples i0 = [])).
-  { unfold inst_for_write in E1. destruct (has_inst h (w_insts w)) eqn:Eh.
-    - injection E1 as <-. repeat split; auto.
+  { subst l1. unfold inst_for_write. unfold inst_refused in Er. destruct (has_inst h (w_insts w)) eqn:Eh.
+    - repeat split; auto.
       destruct (proj1 (has_inst_find _ _) Eh) as [s Hs]. exists s. auto.
-    - destruct (len_lt (zlen (w_insts w)) (q_max_instances (w_qos w))) eqn:El; [|discriminate].
-      injection E1 as <-. repeat split.
+    - cbn [negb andb] in Er. apply negb_false_iff in Er. rename Er into El.
+      repeat split.
       + intros i Hi. apply in_app_or in Hi. destruct Hi as [Hi|[<-|[]]]; [auto|].
         cbn [i_samples]. apply opt_le_bound_nonneg.
-      + rewrite total_app. replace (total_samples [mkInst h None []]) with 0 by reflexivity. lia.
+      + rewrite total_app. replace (total_samples [mkInst h None [] false]) with 0 by reflexivity. lia.
       + unfold opt_le, nonneg_lim. unfold len_lt in El.
         destruct (q_max_instances (w_qos w)) as [v|]; [|exact I].
         destruct (0 <=? v) eqn:E0; [|exact I]. apply Z.leb_le in E0.
         rewrite usize_nonneg in El by exact E0. apply Z.ltb_lt in El.
-        rewrite zlen_app. replace (zlen [mkInst h None []]) with 1 by reflexivity. lia.
-      + exists (mkInst h None []). split; [now apply find_inst_app_new|now right]. }
+        rewrite zlen_app. replace (zlen [mkInst h None [] false]) with 1 by reflexivity. lia.
+      + exists (mkInst h None [] false). split; [now apply find_inst_app_new|now right]. }
   destruct L1 as (Li1 & Lt1 & Lc1 & i0 & Hf & Hi0).
-  destruct (mspi_hit (w_qos w) h l1) eqn:Em.
-  { injection H as <- <-. constructor; wsimpl; auto. now rewrite Lt1. }
-  destruct (ms_hit (w_qos w) l1) eqn:Es.
-  { injection H as <- <-. constructor; wsimpl; auto. now rewrite Lt1. }
-  assert (FIN : Lim (set_insts (set_last_sn (set_insts w l1) (w_last_sn w + 1))
+  assert (Hso : samples_of h (w_insts w) = i_samples i0).
+  { rewrite <- (samples_of_for_write h h (w_insts w)). fold l1. unfold samples_of. now rewrite Hf. }
+  assert (FIN : Lim (set_insts (set_last_sn w (w_last_sn w + 1))
                                (upd_inst h (record_sample ts (w_last_sn w + 1)) l1))).
   { constructor; wsimpl.
     - intros i Hi. destruct (upd_inst_in _ _ _ _ Hf i Hi) as [-> | Hin]; [|auto].
@@ -290,14 +237,13 @@ Proof.
       + (* KEEP_ALL: the max_samples_per_instance test let it through *)
         unfold nonneg_lim. destruct (q_mspi (w_qos w)) as [m|] eqn:Eq; [|exact I].
         destruct (0 <=? m) eqn:E0; [|exact I]. apply Z.leb_le in E0.
-        unfold inst_full in Em. rewrite Hf in Em.
-        rewrite usize_nonneg in Em by exact E0. apply Z.leb_gt in Em. lia.
+        rewrite Hso in Em. rewrite usize_nonneg in Em by exact E0. apply Z.leb_gt in Em. lia.
       + destruct (1 <=? d) eqn:E1d; [|exact I]. apply Z.leb_le in E1d.
         destruct Hi0 as [Hold|Hnew].
         * specialize (R E1d _ Hold). lia.
         * rewrite Hnew. unfold zlen. cbn [length]. lia.
     - rewrite (upd_inst_total _ _ _ _ Hf). cbn [record_sample i_samples]. rewrite zlen_app.
-      replace (zlen [w_last_sn w + 1]) with 1 by reflexivity.
+      replace (zlen [w_last_sn w + 1]) with 1 by reflexivity. rewrite Lt1.
       unfold opt_le, nonneg_lim, ms_hit in *. destruct (q_max_samples (w_qos w)) as [ms|]; [|exact I].
       destruct (0 <=? ms) eqn:E0; [|exact I]. apply Z.leb_le in E0.
       rewrite usize_nonneg in Es by exact E0. apply Z.leb_gt in Es. lia.
@@ -435,20 +381,49 @@ Proof.
   - rewrite upd_inst_len. exact Lc.
 Qed.
 
-Lemma lim_push_empty w h lwt :
+Lemma lim_push_empty w h lwt reg :
   len_lt (zlen (w_insts w)) (q_max_instances (w_qos w)) = true ->
-  Lim w -> Lim (set_insts w (w_insts w ++ [mkInst h lwt []])).
+  Lim w -> Lim (set_insts w (w_insts w ++ [mkInst h lwt [] reg])).
 Proof.
   intros El [Li Lt Lc]. constructor; wsimpl.
   - intros i Hi. apply in_app_or in Hi. destruct Hi as [Hi|[<-|[]]]; [auto|].
     cbn [i_samples]. apply opt_le_bound_nonneg.
-  - rewrite total_app. replace (total_samples [mkInst h lwt []]) with 0 by reflexivity.
+  - rewrite total_app. replace (total_samples [mkInst h lwt [] reg]) with 0 by reflexivity.
     rewrite Z.add_0_r. exact Lt.
   - unfold opt_le, nonneg_lim. unfold len_lt in El.
     destruct (q_max_instances (w_qos w)) as [v|]; [|exact I].
     destruct (0 <=? v) eqn:E0; [|exact I]. apply Z.leb_le in E0.
     rewrite usize_nonneg in El by exact E0. apply Z.ltb_lt in El.
-    rewrite zlen_app. replace (zlen [mkInst h lwt []]) with 1 by reflexivity. lia.
+    rewrite zlen_app. replace (zlen [mkInst h lwt [] reg]) with 1 by reflexivity. lia.
+Qed.
+
+(* upd_reg touches one record and f keeps its samples *)
+Lemma upd_reg_in h f l i : In i (upd_reg h f l) -> In i l \/ exists i0, In i0 l /\ i = f i0.
+Proof.
+  induction l as [|y t IH]; cbn [upd_reg]; [intros []|].
+  destruct ((i_h y =? h) && i_reg y).
+  - intros [<-|Hi]; [right; exists y; split; [now left|reflexivity]|left; now right].
+  - intros [<-|Hi]; [left; now left|]. destruct (IH Hi) as [H|(i0 & H0 & ->)]; [left; now right|].
+    right. exists i0. split; [now right|reflexivity].
+Qed.
+Lemma upd_reg_total h f l : (forall i, i_samples (f i) = i_samples i) ->
+  total_samples (upd_reg h f l) = total_samples l.
+Proof.
+  intros Hf. induction l as [|y t IH]; cbn [upd_reg]; [reflexivity|].
+  destruct ((i_h y =? h) && i_reg y); rewrite !total_cons; [now rewrite Hf|now rewrite IH].
+Qed.
+Lemma upd_reg_len h f l : zlen (upd_reg h f l) = zlen l.
+Proof.
+  unfold zlen. f_equal. induction l as [|y t IH]; cbn [upd_reg length]; [reflexivity|].
+  destruct ((i_h y =? h) && i_reg y); cbn [length]; congruence.
+Qed.
+Lemma lim_updreg_same_samples w h f :
+  (forall i, i_samples (f i) = i_samples i) -> Lim w -> Lim (set_insts w (upd_reg h f (w_insts w))).
+Proof.
+  intros Hf [Li Lt Lc]. constructor; wsimpl.
+  - intros i Hi. destruct (upd_reg_in _ _ _ _ Hi) as [H|(i0 & H0 & ->)]; [auto|]. rewrite Hf. auto.
+  - now rewrite upd_reg_total.
+  - now rewrite upd_reg_len.
 Qed.
 
 Lemma apply_op_lim now w o w' imm d :
@@ -467,14 +442,16 @@ Proof.
     unfold svc_unregister, svc_unreg_or_dispose in E.
     destruct (w_enabled w); cbn [negb] in E; [|injection E as <- <-; exact L].
     destruct (w_keyed w); cbn [negb] in E; [|injection E as <- <-; exact L].
-    destruct (has_inst (hof w k) (w_insts w)); injection E as <- <-; [|exact L].
-    eapply Lim_ext; [| |apply (lim_upd_same_samples w (hof w k) (fun i => mkInst (i_h i) None (i_samples i)))]; auto.
+    destruct (is_reg (hof w k) (w_insts w)); injection E as <- <-; [|exact L].
+    match goal with |- Lim (set_changes (set_insts _ (upd_reg _ ?f _)) _) =>
+      eapply Lim_ext; [| |apply (lim_updreg_same_samples w (hof w k) f (fun i => eq_refl) L)]; reflexivity end.
   - destruct (svc_dispose w k ts) as [w1 r] eqn:E. injection H as <- <- <-.
     unfold svc_dispose, svc_unreg_or_dispose in E.
     destruct (w_enabled w); cbn [negb] in E; [|injection E as <- <-; exact L].
     destruct (w_keyed w); cbn [negb] in E; [|injection E as <- <-; exact L].
-    destruct (has_inst (hof w k) (w_insts w)); injection E as <- <-; [|exact L].
-    eapply Lim_ext; [| |apply (lim_upd_same_samples w (hof w k) (fun i => mkInst (i_h i) None (i_samples i)))]; auto.
+    destruct (is_reg (hof w k) (w_insts w)); injection E as <- <-; [|exact L].
+    match goal with |- Lim (set_changes (set_insts _ (upd_reg _ ?f _)) _) =>
+      eapply Lim_ext; [| |apply (lim_updreg_same_samples w (hof w k) f (fun i => eq_refl) L)]; reflexivity end.
   - injection H as <- <- <-. exact L.
   - destruct (svc_write now w slot k ts) as [w1 r] eqn:E. injection H as <- <- <-.
     eapply svc_write_lim; eauto.
